@@ -11,8 +11,10 @@ cp -r /repo/vibrato "$M/vibrato"
 ( cd "$M" && patch -s -p1 < "$PATCH" ) || { echo "patch failed"; exit 3; }
 cd "$(dirname "$0")/.."
 for id in "$@"; do
-  VERIF_REPO="$M" VERIF_TARGET="$M-target" VERIF_EVIDENCE_DIR="$OUT" \
-    VERIF_REPLAY_OUT="$OUT" ./check "$id" "${MUT_TIER:-quick}" | grep -E "^(VIOLATION|SUMMARY|INCONCLUSIVE|REASON|KNOWN)" | cut -c1-400
-  echo "== $id exit=${PIPESTATUS[0]}"
+  for seed in ${MUT_SEEDS:-${VERIF_SEED:-0}}; do
+    VERIF_SEED="$seed" VERIF_REPO="$M" VERIF_TARGET="$M-target" VERIF_EVIDENCE_DIR="$OUT" \
+      VERIF_REPLAY_OUT="$OUT" ./check "$id" "${MUT_TIER:-quick}" | grep -E "^(VIOLATION|SUMMARY|INCONCLUSIVE|REASON|KNOWN)" | cut -c1-400
+    echo "== $id seed=$seed exit=${PIPESTATUS[0]}"
+  done
 done
 rm -rf "$M"
